@@ -26,9 +26,14 @@ FramesFew == {[fields |-> fs, bin |-> b] : fs \in {<<>>, <<<<Ka, <<98>>>>>>, <<<
 \* ---- abstract responses: [r |-> response, list |-> BOOLEAN]
 SingleOk  == {[r |-> [frames |-> <<f>>, err |-> <<>>], list |-> FALSE] : f \in Frames}
 SingleErr == {[r |-> [frames |-> <<>>, err |-> e], list |-> FALSE] : e \in Errs}
+\* lists of up to 5 frames: every 3-frame combination (a payload in a frame that is not the first, followed by frames without
+\* one, and the like), samples of longer ones
 FrameSeqs == {<<>>} \cup {<<f>> : f \in FramesFew} \cup {<<f, g>> : f \in FramesFew, g \in FramesFew}
+             \cup {<<f, g, h>> : f \in FramesFew, g \in FramesFew, h \in FramesFew}
+             \cup RandomSubset(120, [1..4 -> FramesFew]) \cup RandomSubset(60, [1..5 -> FramesFew])
 ListOk    == {[r |-> [frames |-> fs, err |-> <<>>], list |-> TRUE] : fs \in FrameSeqs \ {<<>>}}
-ListErr   == {[r |-> [frames |-> fs, err |-> e], list |-> TRUE] : fs \in FrameSeqs, e \in {x \in Errs : x[3] # <<>>}}
+ListErr   == {[r |-> [frames |-> fs, err |-> e], list |-> TRUE] : fs \in {x \in FrameSeqs : Len(x) <= 2} \cup RandomSubset(80, {x \in FrameSeqs : Len(x) > 2}),
+                                                                        e \in {x \in Errs : x[3] # <<>>}}
 \* errors preceded by partial output of the failing command (junk lines that belong to no frame)
 Junks == {<<<<Ka, <<98>>>>>>, <<<<KB, <<79,75>>>>, <<Ka, <<>>>>>>}
 JunkErr == {[r |-> [frames |-> <<>>, err |-> e], list |-> FALSE, junk |-> j] : e \in Errs, j \in Junks}
